@@ -1,6 +1,7 @@
 import SlotVerif.Model.Parse
 import SlotVerif.Proofs.ParseRT
 import SlotVerif.Proofs.TokenizeRT
+import SlotVerif.Proofs.MultiRT
 import SlotVerif.Props.C17
 /-!
 # C18 — Printing and parsing round-trip; parsing never panics
@@ -22,6 +23,11 @@ payloads and pattern-variable names are non-empty identifier texts not starting 
 every slot is known to the table and its printed name reads back as the same slot — C17
 `display_named`; a node printed without parentheses is a bare operator/payload), so
 `print_parse_roundtrip`: **`Pattern::parse(p.to_string()) = Ok(p)`**, slot table unchanged.
+**`RecExpr`** (`recexpr_roundtrip`, `recexpr_rejects_pattern`) and **`MultiPattern`** (`multipattern_roundtrip`; the
+splitting of the text at `,` and `==`, the trimming and the two `Pattern::parse` calls per equation are modelled in
+`Model/Parse.lean` — `parseMulti` — and are what the driver runs against `MultiPattern::parse`): the printed text of
+any list of equations `?v == (op ?c1 .. ?ck)` parses back to that list, provided no printed side contains a comma or
+two consecutive `=` (`MEqOK`; `Proofs/MultiRT.lean` has the character-level lemmas).
 -/
 namespace SV.Parse.C18
 open SV SV.Parse
@@ -263,5 +269,119 @@ example : RT.CharOK appSig {} exPat := by
 -- whole-text test of the same round trip (compiled evaluation)
 #guard (match parsePat appSig (printPat appSig {} exPat).toList {} with | .ok (p, _) => printPat appSig {} p == printPat appSig {} exPat | .error _ => false)
 #guard printPat appSig {} exPat == "(app ?f (var $1))[?a := ?b]"
+
+/-! ## `RecExpr` and `MultiPattern` -/
+
+/-- **`RecExpr::parse(re.to_string()) = Ok(re)`**: a term is a pattern without variables and substitutions, printed by the
+same `Display` and parsed by `Pattern::parse` followed by `pattern_to_re` -/
+theorem recexpr_roundtrip (sig : Sig) (t : Slot.Tab) (p : Pat) (ht : isTerm p = true) (hw : RT.WFP sig p)
+    (hc : RT.CharOK sig t p) : parseRe sig (printPat sig t p).toList t = .ok (p, t) := by
+  unfold parseRe
+  rw [print_parse_roundtrip sig t p hw hc]
+  simp [ht]
+
+/-- a pattern with a variable is refused by `RecExpr::parse` even when it is a fine pattern -/
+theorem recexpr_rejects_pattern (sig : Sig) (t : Slot.Tab) (p : Pat) (ht : isTerm p = false) (hw : RT.WFP sig p)
+    (hc : RT.CharOK sig t p) : parseRe sig (printPat sig t p).toList t = .error .parseState := by
+  unfold parseRe
+  rw [print_parse_roundtrip sig t p hw hc]
+  simp [ht]
+
+/-- what makes one equation `?v == (op ?c1 .. ?ck)` print unambiguously: the two sides are fine patterns, and neither
+contains a comma or two consecutive `=` (the multi-pattern parser splits the *text* there) -/
+structure MEqOK (sig : Sig) (t : Slot.Tab) (e : MEq) : Prop where
+  pv : RT.PvarOK e.1
+  wfp : RT.WFP sig (.enode e.2.1 (e.2.2.map .pvar))
+  chars : RT.CharOK sig t (.enode e.2.1 (e.2.2.map .pvar))
+  free1 : RT.sepFree ('?' :: e.1.toList) = true
+  free2 : RT.sepFree (RT.printC sig t (.enode e.2.1 (e.2.2.map .pvar))) = true
+
+/-- the loop body of `MultiPattern::parse` on one printed equation -/
+theorem parseMEq_printed (sig : Sig) (t : Slot.Tab) (e : MEq) (h : MEqOK sig t e) :
+    parseMEq sig (RT.eqC sig t e) t = .ok (e, t) := by
+  obtain ⟨v, n, vars⟩ := e
+  unfold parseMEq RT.eqC
+  simp only
+  rw [RT.splitEqEq_eq _ _ h.free1 h.free2]
+  simp only
+  have hl : parsePat sig (('?' :: v.toList) ++ [' ']) t = .ok (.pvar v, t) := by
+    apply parsePat_printed sig (.pvar v) (.pvar _)
+    have hk : RT.Toks ('?' :: v.toList ++ [' ']) t [Tok.pvar v] t :=
+      RT.toks_pvar h.pv (RT.delim_cons (by decide) []) (.done rfl)
+    exact RT.tokenize_of_toks hk _ (Nat.le_refl _)
+  have hr : parsePat sig (' ' :: RT.printC sig t (.enode n (vars.map .pvar))) t = .ok (.enode n (vars.map .pvar), t) := by
+    apply parsePat_printed sig _ h.wfp
+    have hk := RT.toks_print sig t _ h.chars [] [] RT.delim_nil (.done rfl)
+    simp only [List.append_nil] at hk
+    exact RT.tokenize_of_toks (RT.toks_ws.mpr hk) _ (Nat.le_refl _)
+  rw [hl]
+  simp only
+  rw [hr]
+  simp only [RT.allPvars_map]
+
+theorem parseMEqs_printed (sig : Sig) (t : Slot.Tab) : ∀ (mp : List MEq), (∀ e ∈ mp, MEqOK sig t e) →
+    parseMEqs sig (mp.map (RT.eqC sig t)) t = .ok (mp, t)
+  | [], _ => rfl
+  | e :: mp, h => by
+    simp only [List.map_cons, parseMEqs]
+    rw [parseMEq_printed sig t e (h e (by simp))]
+    simp only
+    rw [parseMEqs_printed sig t mp (fun x hx => h x (by simp; right; exact hx))]
+
+/-- **`MultiPattern::parse(mp.to_string()) = Ok(mp)`**, slot table unchanged, for every list of equations that print
+unambiguously (`MEqOK`) — including the empty multi-pattern, whose text is empty -/
+theorem multipattern_roundtrip (sig : Sig) (t : Slot.Tab) (mp : List MEq) (h : ∀ e ∈ mp, MEqOK sig t e) :
+    parseMulti sig (printMulti sig t mp).toList t = .ok (mp, t) := by
+  unfold parseMulti
+  rw [RT.printMulti_toList, RT.pieces_joinCS]
+  · exact parseMEqs_printed sig t mp h
+  · intro x hx
+    obtain ⟨e, he, rfl⟩ := List.mem_map.mp hx
+    have hk := h e he
+    unfold RT.eqC
+    refine RT.commaFree_append (RT.commaFree_of_sepFree hk.free1) ?_
+    refine RT.commaFree_cons (by decide) (RT.commaFree_cons (by decide) (RT.commaFree_cons (by decide)
+      (RT.commaFree_cons (by decide) (RT.commaFree_of_sepFree hk.free2))))
+  · intro x hx
+    obtain ⟨e, he, rfl⟩ := List.mem_map.mp hx
+    have hk := h e he
+    obtain ⟨l, r, hr, hl⟩ := RT.printC_enode_last sig t _ _ hk.chars
+    refine ⟨⟨'?', _, rfl, by decide⟩, ⟨l, r ++ (' ' :: '=' :: '=' :: ' ' :: ('?' :: e.1.toList).reverse), ?_, hl⟩⟩
+    unfold RT.eqC
+    rw [List.reverse_append, List.reverse_cons, List.reverse_cons, List.reverse_cons, List.reverse_cons, hr]
+    simp
+
+/-- non-vacuity: the equation `?v == (app ?a ?b)` meets `MEqOK` under the empty slot table … -/
+def exEq : MEq := ("v", ⟨0, [.app RT.nullApp, .app RT.nullApp]⟩, ["a", "b"])
+
+theorem MEqOK.mk' {sig : Sig} {t : Slot.Tab} {v : String} {n : Node} {cs : List String} (pv : RT.PvarOK v)
+    (wfp : RT.WFP sig (.enode n (cs.map .pvar))) (chars : RT.CharOK sig t (.enode n (cs.map .pvar)))
+    (free1 : RT.sepFree ('?' :: v.toList) = true) (free2 : RT.sepFree (RT.printC sig t (.enode n (cs.map .pvar))) = true) :
+    MEqOK sig t (v, n, cs) := ⟨pv, wfp, chars, free1, free2⟩
+
+example : MEqOK appSig {} exEq := by
+  unfold exEq
+  have happ : RT.IdentOK "app" := identOK_of_toList (c := 'a') (r := ['p', 'p']) rfl (by decide) (by decide) (by decide) (by decide)
+  have s0 : Node.toSyntax appSig ⟨0, [.app RT.nullApp, .app RT.nullApp]⟩ = [.str "app", .app RT.nullApp, .app RT.nullApp] := rfl
+  refine MEqOK.mk' ⟨by decide, by decide⟩ ?_ ?_ (by decide) ?_
+  · refine .named (vr := ⟨some "app", [.app, .app]⟩) (name := "app") rfl rfl ?_ ?_ ?_ ?_ rfl ?_
+    · exact .cons (.app _) (.cons (.app _) .nil)
+    · intro j hj; simp at hj
+    · intro k hk; simp at hk; rcases hk with rfl | rfl <;> rfl
+    · intro a ha; simp [Node.appOcc, Field.appOcc] at ha; rcases ha with rfl | rfl <;> rfl
+    · exact .cons (.pvar _) (.cons (.pvar _) .nil)
+  · refine ⟨?_, ?_, ?_, ?_, ⟨⟨by decide, by decide⟩, ⟨by decide, by decide⟩, trivial⟩⟩
+    · intro s hs; rw [s0] at hs; simp at hs; subst hs; exact happ
+    · intro c hc; rw [s0] at hc; simp at hc
+    · intro h; rw [s0] at h; simp at h
+    · rw [s0]; rfl
+  · decide
+
+-- … and the whole-text tests of the same round trip (compiled evaluation)
+#guard printMulti appSig {} [exEq, exEq] == "?v == (app ?a ?b), ?v == (app ?a ?b)"
+#guard (match parseMulti appSig (printMulti appSig {} [exEq, exEq]).toList {} with | .ok (mp, _) => mp.length == 2 | .error _ => false)
+#guard (match parseMulti appSig "?v == (app ?a ?b),, ".toList {} with | .ok (mp, _) => mp.length == 1 | .error _ => false)
+#guard (match parseMulti appSig "?v == (app ?a ?b) == ?c".toList {} with | .error .tokenState => true | _ => false)
+#guard (match parseMulti appSig "(app ?a ?b) == ?v".toList {} with | .error .parseState => true | _ => false)
 
 end SV.Parse.C18
